@@ -1011,3 +1011,187 @@ Qed.
 
 Lemma fetch_inv_init : fetch_inv init_state.
 Proof. split; [constructor|reflexivity]. Qed.
+
+(* ====================================================================== *)
+(* C14: termination of the queue-draining loop                             *)
+(* ====================================================================== *)
+
+Section Termination.
+Variable w : world.
+(* a finite universe of artifacts and registry requests, closed under reported
+   dependencies, relative resolution and registry resolution *)
+Variable U : list rart.
+Variable G : list gart.
+
+Definition in_universe (i : item) : Prop :=
+  match i with IRem a => In a U | IReg g => In g G end.
+
+Definition universe_closed : Prop :=
+  (forall a d i, In a U -> In d (deps_of w a) -> dep_item (fst a) d = Some i -> in_universe i) /\
+  (forall p sub sid f real, In (p, sub, sid, f) G ->
+     resolve_registry w p sub sid = Some real -> In (real, f) U).
+
+Definition uroots : list item := map IRem U ++ map IReg G.
+
+Lemma reach_in_universe : universe_closed -> forall i, reach w uroots i -> in_universe i.
+Proof.
+  intros [Hd Hr] i H. induction H as [i Hi|p sub sid f real _ IH Hres|a d i _ IH Hin Hdi].
+  - unfold uroots in Hi. apply in_app_or in Hi as [Hi|Hi]; apply in_map_iff in Hi as (x & <- & Hx); exact Hx.
+  - cbn in *. eapply Hr; eauto.
+  - cbn in IH. eapply Hd; eauto.
+Qed.
+
+Definition cost (an : list rart) (a : rart) : nat :=
+  if mem rart_eqb a an then 0 else 1 + 2 * length (deps_of w a).
+Definition todo (an : list rart) : nat := list_sum (map (cost an) U).
+Definition weight (st : bstate) : nat := length (pend_remote st) + 2 * length (pend_registry st).
+
+(* 1 exactly in the two configurations whose next step only switches loops *)
+Definition switching (phase : bool) (st : bstate) : nat :=
+  match phase, pend_registry st, pend_remote st with
+  | true, [], _ => 1
+  | false, _ :: _, [] => 1
+  | _, _, _ => 0
+  end.
+
+Definition mu (phase : bool) (st : bstate) : nat :=
+  2 * (weight st + todo (analyzed st)) + switching phase st.
+
+Lemma lsc (a : nat) l : list_sum (a :: l) = a + list_sum l.
+Proof. reflexivity. Qed.
+
+Lemma cost_mono an x a : cost (x :: an) a <= cost an a.
+Proof.
+  unfold cost, mem. cbn [existsb]. destruct (rart_eqb a x); cbn [orb]; [lia|].
+  destruct (existsb (rart_eqb a) an); lia.
+Qed.
+
+Lemma todo_cons_le_gen (l : list rart) an x :
+  list_sum (map (cost (x :: an)) l) <= list_sum (map (cost an) l).
+Proof.
+  induction l as [|a l IH]; cbn [map]; rewrite ?lsc; [cbn; lia|]. pose proof (cost_mono an x a). lia.
+Qed.
+
+Lemma todo_decrease_gen (l : list rart) an x :
+  In x l -> mem rart_eqb x an = false ->
+  list_sum (map (cost (x :: an)) l) + (1 + 2 * length (deps_of w x)) <= list_sum (map (cost an) l).
+Proof.
+  induction l as [|a l IH]; intros Hin Hm; [contradiction|]. cbn [map]. rewrite !lsc.
+  destruct Hin as [->|Hin].
+  - pose proof (todo_cons_le_gen l an x).
+    assert (cost (x :: an) x = 0).
+    { unfold cost, mem. cbn [existsb]. replace (rart_eqb x x) with true; [reflexivity|]. symmetry. now apply rart_eqb_eq. }
+    assert (cost an x = 1 + 2 * length (deps_of w x)) by (unfold cost; now rewrite Hm).
+    lia.
+  - specialize (IH Hin Hm). pose proof (cost_mono an x a). lia.
+Qed.
+
+Lemma push_dep_weight src d st ds st' ds' :
+  push_dep src (st, ds) d = (st', ds') -> weight st' <= weight st + 2.
+Proof.
+  unfold push_dep, weight. destruct d as [s f|p sub sid f|rel f].
+  - intros [= <- <-]. cbn. lia.
+  - intros [= <- <-]. cbn. lia.
+  - destruct (join_sub_path _ _); intros [= <- <-]; cbn; lia.
+Qed.
+
+Lemma push_deps_weight src deps : forall st ds st' ds',
+  fold_left (push_dep src) deps (st, ds) = (st', ds') -> weight st' <= weight st + 2 * length deps.
+Proof.
+  induction deps as [|d deps IH]; intros st ds st' ds' H.
+  - cbn in H. injection H as <- <-. lia.
+  - cbn [fold_left] in H. destruct (push_dep src (st, ds) d) as [st1 ds1] eqn:E1.
+    pose proof (push_dep_weight _ _ _ _ _ _ E1). specialize (IH _ _ _ _ H). cbn [length]. lia.
+Qed.
+
+Lemma switching_le phase st : switching phase st <= 1.
+Proof. unfold switching. destruct phase, (pend_registry st), (pend_remote st); lia. Qed.
+
+Lemma step_measure phase st ds ph st' ds' :
+  universe_closed -> sinv w uroots st ->
+  step w phase st ds = Next ph st' ds' -> mu ph st' < mu phase st.
+Proof.
+  intros Hclosed Hs Hstep. pose proof Hs as [Hc Han Hpr Hpg Hf].
+  unfold step in Hstep. destruct phase.
+  - destruct (pend_registry st) as [|[[[p sub] sid] f] remain] eqn:Eg.
+    + (* switch to the remote loop *)
+      injection Hstep as <- <- <-. unfold mu, switching. rewrite Eg.
+      destruct (pend_remote st); lia.
+    + set (st0 := set_pend_registry st remain) in *.
+      assert (Hc0 : cache_ok w st0) by (destruct Hc; constructor; auto).
+      pose proof (find_registry_source_spec w st0 p sub sid Hc0) as Hspec.
+      destruct (find_registry_source w st0 p sub sid) as [st1 r].
+      destruct Hspec as (_ & _ & (Q1 & Q2 & Q3 & _) & _).
+      cbn in Q1, Q2, Q3.
+      destruct r as [real|]; injection Hstep as <- <- <-.
+      * pose proof (switching_le true (set_pend_remote st1 ((real, f) :: pend_remote st1))).
+        unfold mu, weight, switching in *. cbn [pend_remote pend_registry analyzed set_pend_remote] in *.
+        rewrite Eg, <- Q1, <- Q2, <- Q3. cbn [length]. destruct remain; cbn [length]; lia.
+      * pose proof (switching_le true st1).
+        unfold mu, weight, switching in *. rewrite Eg, <- Q1, <- Q2, <- Q3. cbn [length]. destruct remain; cbn [length]; lia.
+  - destruct (pend_remote st) as [|[src f] remain] eqn:Er.
+    + destruct (pend_registry st) eqn:Eg; [discriminate|]. injection Hstep as <- <- <-.
+      unfold mu, switching. rewrite Eg, Er. lia.
+    + set (st0 := set_pend_remote st remain) in *.
+      assert (Hc0 : cache_ok w st0) by (destruct Hc; constructor; auto).
+      pose proof (ensure_remote_package_spec w st0 (fst src) Hc0) as Hspec.
+      destruct (ensure_remote_package w st0 (fst src)) as [st1 r].
+      destruct Hspec as (Hr & _ & (Q1 & Q2 & Q3 & _) & _).
+      cbn in Q1, Q2, Q3.
+      assert (Hbase : forall phx, mu phx st1 < mu false st).
+      { intros phx. pose proof (switching_le phx st1). unfold mu.
+        remember (switching phx st1) as s1 eqn:Es1. clear Es1.
+        unfold weight in *. rewrite <- Q1, <- Q2, <- Q3, Er. cbn [length].
+        unfold switching. rewrite Er. destruct (pend_registry st); lia. }
+      destruct r as [c|]; [|injection Hstep as <- <- <-; apply Hbase].
+      destruct (mem rart_eqb (src, f) (analyzed st1)) eqn:Em; [injection Hstep as <- <- <-; apply Hbase|].
+      destruct (w_deps w c (snd src) f) as [deps more] eqn:Ed.
+      destruct (fold_left (push_dep src) deps (st1, ds)) as [st2 ds2] eqn:Efold.
+      pose proof (push_deps_spec src deps _ _ _ _ Efold) as (Ha2 & _).
+      pose proof (push_deps_weight _ _ _ _ _ _ Efold) as Hw.
+      assert (Hfetch : exists m, w_fetch w (fst src) = Some (c, m)).
+      { destruct (w_fetch w (fst src)) as [[c' m]|]; cbn in Hr; [|discriminate].
+        injection Hr as ->. eauto. }
+      destruct Hfetch as [m Hm].
+      assert (Hdeps : deps_of w (src, f) = deps).
+      { unfold deps_of. cbn. rewrite Hm, Ed. reflexivity. }
+      assert (HinU : In (src, f) U).
+      { apply (reach_in_universe Hclosed (IRem (src, f))). apply Hpr. now left. }
+      pose proof (todo_decrease_gen U (analyzed st1) (src, f) HinU Em) as Htd.
+      rewrite Hdeps in Htd.
+      assert (Hgoal : forall phx, mu phx (add_analyzed st2 (src, f)) < mu false st).
+      { intros phx. pose proof (switching_le phx (add_analyzed st2 (src, f))). unfold mu.
+        remember (switching phx (add_analyzed st2 (src, f))) as s1 eqn:Es1. clear Es1.
+        unfold todo in *. cbn [analyzed add_analyzed]. rewrite Ha2, <- Q3.
+        change (weight (add_analyzed st2 (src, f))) with (weight st2).
+        unfold weight in *. rewrite <- Q1, <- Q2 in Hw. rewrite <- Q3 in Htd. rewrite Er. cbn [length].
+        unfold switching. rewrite Er. cbn in Hw.
+        destruct (pend_registry st); cbn [length] in *; lia. }
+      destruct more; injection Hstep as <- <- <-; [apply Hgoal|].
+      pose proof (Hgoal false) as Hg. unfold mu, weight, switching in *. exact Hg.
+Qed.
+
+(* the drain loop terminates whenever its fuel exceeds the measure *)
+Theorem drain_terminates : universe_closed ->
+  forall fuel phase st ds, sinv w uroots st -> mu phase st < fuel ->
+  exists res, drain fuel w phase st ds = Some res.
+Proof.
+  intros Hclosed. induction fuel as [|fuel IH]; intros phase st ds Hs Hlt; [lia|].
+  cbn. destruct (step w phase st ds) as [st1 ds1|ph st1 ds1] eqn:Es; [eauto|].
+  apply IH.
+  - eapply step_sinv; eauto.
+  - pose proof (step_measure _ _ _ _ _ _ Hclosed Hs Es). lia.
+Qed.
+
+(* a bound that does not depend on the state: for states whose queues hold at
+   most [k] items in all *)
+Definition total_cost : nat := list_sum (map (fun a => 1 + 2 * length (deps_of w a)) U).
+
+Lemma todo_le_total an : todo an <= total_cost.
+Proof.
+  unfold todo, total_cost. induction U as [|a l IH]; cbn [map]; rewrite ?lsc; [cbn; lia|].
+  assert (cost an a <= 1 + 2 * length (deps_of w a)) by (unfold cost; destruct (mem _ _ _); lia).
+  lia.
+Qed.
+
+End Termination.
